@@ -600,10 +600,22 @@ func genPureWorkload(r *rng) *wlPure {
 			wl.Inputs = append(wl.Inputs, pInput{Kind: "str", Text: r.pick(validatorStrings)})
 		}
 	}
+	// a quarter of the workloads make no call that enters the parser: the
+	// parser's global locks synchronise the tasks "by accident" (a lock
+	// released by one task and acquired by another orders everything before
+	// with everything after), which can hide races in lock-free code
+	noParse := r.chance(25)
+	parses := map[string]bool{"dsl2proto": true, "dsl2json": true, "moddsl2proto": true, "merge": true}
 	pickOp := func() pOp {
-		i := r.intn(len(wl.Inputs))
-		ks := opsByKind[wl.Inputs[i].Kind]
-		return pOp{Kind: ks[r.intn(len(ks))], In: i, Opt: r.chance(40)}
+		for tries := 0; ; tries++ {
+			i := r.intn(len(wl.Inputs))
+			ks := opsByKind[wl.Inputs[i].Kind]
+			k := ks[r.intn(len(ks))]
+			if noParse && parses[k] && tries < 50 {
+				continue
+			}
+			return pOp{Kind: k, In: i, Opt: r.chance(40)}
+		}
 	}
 	nt := 1 + r.intn(4)
 	shared := r.chance(60)
